@@ -91,6 +91,25 @@ sink s1
   }
 `
 
+// two invocations write different entries of ONE global map (and of one global
+// list), without an ECAL mutex: every single assignment is made under the
+// scope's lock, so the container is never written by two threads at once
+const c11SharedMap = `
+gm := {}
+gl := [0, 0, 0]
+sink s1
+  kindmatch ["k"],
+  {
+    let id := event.state.id
+    gm[id] := id
+    gl[id] := id
+    hyield()
+    probe(id, event.state.id, event.name)
+    gm[id + 10] := id
+    gm.last := id
+  }
+`
+
 func (s *c11State) install() {
 	s.en.def("hyield", func(tid uint64, args []interface{}) (interface{}, error) {
 		vsched.Yield()
@@ -223,6 +242,10 @@ func init() {
 				Make: c11Make(c11One, w, x.fails, false)})
 		}
 	}
+	register(&Scenario{Prop: "C11", Name: "shared-global-containers-ok-ok-w2", Quick: 1, Thor: 2,
+		FreeQuick: 1, FreeThor: 1, QuickShards: 2, ThorShards: 4,
+		Desc: "2 events on 2 workers trigger a sink that assigns to different entries of one global map and one global list without an ECAL mutex (element writes into ECAL containers are tracked by the race check)",
+		Make: c11Make(c11SharedMap, 2, []bool{false, false}, false)})
 	register(&Scenario{Prop: "C11", Name: "different-globals-ok-ok-w2", Quick: 1, Thor: 2,
 		FreeQuick: 1, FreeThor: 1, QuickShards: 2, ThorShards: 4,
 		Desc: "2 events on 2 workers trigger a sink that writes a different global variable per event and reads global functions, without an ECAL mutex",
